@@ -11,6 +11,7 @@ import (
 	"errors"
 	"fmt"
 	"hash/fnv"
+	"io"
 	"io/fs"
 	"os"
 	"path/filepath"
@@ -44,9 +45,12 @@ type c18Op struct {
 }
 
 type c18Input struct {
-	Base []int   `json:"base"` // components of the base directory below the temp root
-	Pre  bool    `json:"pre,omitempty"`
-	Ops  []c18Op `json:"ops"`
+	Base []int `json:"base"` // components of the base directory below the temp root
+	Pre  bool  `json:"pre,omitempty"`
+	// Alias: the caller keeps ONE map (and, where the lengths agree, the same byte slices) and
+	// updates it in place between the calls, as a rotation loop would
+	Alias bool    `json:"alias,omitempty"`
+	Ops   []c18Op `json:"ops"`
 }
 
 func keyName(k []int) string {
@@ -62,7 +66,9 @@ func keyName(k []int) string {
 
 type crashSignal struct{}
 
-// crashLogger: only Infof is used by dir.go; any other method hits the nil embedded interface.
+// crashLogger: dir.go logs its progress with Infof — those calls are the crash points. Every
+// other method of the interface goes to a real logger writing to io.Discard, so that code
+// logging at another level is observed like any other code.
 type crashLogger struct {
 	logger.Logger
 	calls   int
@@ -84,17 +90,31 @@ func (l *crashLogger) Infof(_ string, args ...interface{}) {
 	}
 }
 
-func runWrite(d *dir.Dir, files map[string][]byte) (err error, crashed bool) {
+var (
+	quietOnce sync.Once
+	quietLog  logger.Logger
+)
+
+func newCrashLogger() *crashLogger {
+	quietOnce.Do(func() {
+		quietLog = logger.NewLogger("verif-c18")
+		quietLog.SetOutput(io.Discard)
+	})
+	return &crashLogger{Logger: quietLog}
+}
+
+// runWrite: crashed = the injected crash was reached; panicked != "" = Write itself panicked.
+func runWrite(d *dir.Dir, files map[string][]byte) (err error, crashed bool, panicked string) {
 	defer func() {
 		if r := recover(); r != nil {
 			if _, ok := r.(crashSignal); ok {
 				crashed = true
 				return
 			}
-			panic(r)
+			panicked = fmt.Sprint(r)
 		}
 	}()
-	return d.Write(files), false
+	return d.Write(files), false, ""
 }
 
 // ---------------------------------------------------------------------------------------
@@ -426,6 +446,8 @@ func c18Run(ctx *core.Ctx, in c18Input) error {
 
 	var d *dir.Dir
 	var lg *crashLogger
+	var shared map[string][]byte
+	var prevSet map[string]c18File
 	var opTerms, shape []string
 	observed := []map[string]any{}
 	facts := map[string]any{"crash_after_symlink_then_write": false, "any_crash": false, "invalid_names": false}
@@ -435,21 +457,36 @@ func c18Run(ctx *core.Ctx, in c18Input) error {
 	for i, op := range in.Ops {
 		fresh := op.Fresh || d == nil
 		if fresh {
-			lg = &crashLogger{}
+			lg = newCrashLogger()
 			d = dir.New(dir.Options{Log: lg, Target: target})
 		}
-		files := map[string][]byte{}
+		var files map[string][]byte
+		if in.Alias && shared != nil {
+			files = shared
+		} else {
+			files = map[string][]byte{}
+			shared = files
+		}
 		byName := map[string]c18File{}
 		valid := true
 		for _, f := range op.Files {
 			name := keyName(f.Key)
-			if _, dup := files[name]; dup {
+			if _, dup := byName[name]; dup {
 				continue
 			}
-			files[name] = f.Data
+			if old, ok := files[name]; ok && in.Alias && len(old) == len(f.Data) {
+				copy(old, f.Data) // same backing array, new content
+			} else {
+				files[name] = append([]byte(nil), f.Data...)
+			}
 			byName[name] = f
 			if len(f.Key) != 1 {
 				valid = false
+			}
+		}
+		for name := range files {
+			if _, ok := byName[name]; !ok {
+				delete(files, name)
 			}
 		}
 		lg.calls, lg.crashAt, lg.written = 0, op.Crash, nil
@@ -463,11 +500,24 @@ func c18Run(ctx *core.Ctx, in c18Input) error {
 
 		rd := startReaders(target)
 		rd.waitSnapshots(1)
-		werr, crashed := runWrite(d, files)
+		werr, crashed, panicked := runWrite(d, files)
 		rd.waitSnapshots(1)
 		views := rd.finish()
 		raced += rd.raced
 		rerrs += rd.errs
+		if panicked != "" {
+			// no Write may panic: judged here, the history ends
+			ctx.Sink.Count("op/outcome=PANIC")
+			ctx.Sink.Add(hx.Case{
+				Kind:   "history",
+				Input:  hx.MustJSON(in),
+				Facts:  map[string]any{"panic": true},
+				Class:  fmt.Sprintf("panic/op%d", i),
+				Direct: 2,
+				Note:   fmt.Sprintf("Write number %d of the history panicked: %s", i+1, panicked),
+			})
+			return nil
+		}
 
 		// iteration order as observed: the reported names, then — when the call stopped early —
 		// the unusable names (one of them is what failed), then the rest
@@ -513,7 +563,12 @@ func c18Run(ctx *core.Ctx, in c18Input) error {
 		default:
 			kind = "rename"
 		}
-		shape = append(shape, fmt.Sprintf("n%d/%s/%v/%s", len(files), kind, fresh, out))
+		rel := relation(prevSet, byName)
+		prevSet = byName
+		shape = append(shape, fmt.Sprintf("n%d/%s/%v/%s/%s", len(files), kind, fresh, out, rel))
+		if i > 0 {
+			ctx.Sink.Count("op/vs_previous_set=" + rel)
+		}
 		observed = append(observed, map[string]any{"outcome": out, "entries": nent, "reader_views": len(views)})
 		ctx.Sink.Count("op/outcome=" + out)
 		ctx.Sink.Count("op/crash_at=" + kind)
@@ -556,15 +611,75 @@ func c18Run(ctx *core.Ctx, in c18Input) error {
 		Input:    hx.MustJSON(in),
 		Observed: observed,
 		Facts:    facts,
-		Class:    fmt.Sprintf("b%d%v|", len(in.Base), in.Pre) + strings.Join(shape, "|"),
+		Class:    fmt.Sprintf("b%d%v%v|", len(in.Base), in.Pre, in.Alias) + strings.Join(shape, "|"),
 		Trivial:  !nontrivial,
 		Coq:      fmt.Sprintf("Case %s %s %s", coqNs(in.Base), hx.CoqBool(in.Pre), hx.CoqList(opTerms)),
 	})
 	return nil
 }
 
+// relation of the names of this call's set to the previous call's (equal / subset / superset /
+// overlap / disjoint, "first" for the first call) and of the contents of the shared names
+func relation(prev, cur map[string]c18File) string {
+	if prev == nil {
+		return "first"
+	}
+	shared, same := 0, 0
+	for name, f := range cur {
+		if g, ok := prev[name]; ok {
+			shared++
+			if string(g.Data) == string(f.Data) {
+				same++
+			}
+		}
+	}
+	names := "overlap"
+	switch {
+	case len(cur) == 0 && len(prev) == 0:
+		names = "both-empty"
+	case len(cur) == 0:
+		names = "to-empty"
+	case len(prev) == 0:
+		names = "from-empty"
+	case shared == len(cur) && shared == len(prev):
+		names = "equal"
+	case shared == len(cur):
+		names = "subset"
+	case shared == len(prev):
+		names = "superset"
+	case shared == 0:
+		names = "disjoint"
+	}
+	content := "-"
+	switch {
+	case shared == 0:
+	case same == shared:
+		content = "same"
+	case same == 0:
+		content = "diff"
+	default:
+		content = "mixed"
+	}
+	return names + "/" + content
+}
+
 // ---------------------------------------------------------------------------------------
 // generation
+
+// stable contents: the bytes of a file depend on its name and a variant number only, and all
+// variants have the same length — consecutive calls can carry byte-identical files, or files
+// that differ in content but not in name and size
+func mkStable(keys [][]int, variant func(i int) int) []c18File {
+	out := make([]c18File, len(keys))
+	for i, k := range keys {
+		kb := 0
+		if len(k) > 0 {
+			kb = k[len(k)-1]
+		}
+		out[i] = c18File{Key: k, Data: []byte{byte(0xA0 + kb), byte(variant(i))}}
+	}
+	return out
+}
 
 // file set number s written by call number i: contents depend on the call, so that a mixed
 // set is recognisable
@@ -638,7 +753,57 @@ func c18Gen(ctx *core.Ctx) {
 			}
 		}
 	}
-	// C. random histories: 1..4 (sometimes up to 7) calls, random sets incl. unusable names
+	// E. consecutive sets related by name (every ordered pair of the menu: equal, subset,
+	//    superset, overlap, disjoint, to/from the empty set) x contents of the shared names
+	//    (identical / all different / mixed, always the same sizes) x same or new Dir, then a
+	//    third call shrinking to one identical file or to nothing; the caller's map fresh per
+	//    call or ONE map updated in place
+	for _, k1 := range c18Menu {
+		for _, k2 := range c18Menu {
+			for mode := 0; mode < 3; mode++ {
+				if mode == 2 && len(k2) < 2 {
+					continue
+				}
+				for _, fresh2 := range []bool{false, true} {
+					v2 := func(i int) int {
+						switch mode {
+						case 0:
+							return 0
+						case 1:
+							return 1
+						}
+						return i % 2
+					}
+					var k3 [][]int
+					if len(k2) > 0 && r.Bool() {
+						k3 = k2[len(k2)-1:]
+					}
+					ops := []c18Op{
+						{Files: mkStable(k1, func(int) int { return 0 })},
+						{Files: mkStable(k2, v2), Fresh: fresh2},
+						{Files: mkStable(k3, func(i int) int { return v2(len(k2) - 1) }), Fresh: r.Chance(1, 3)},
+					}
+					run(c18Input{Base: bases[r.Intn(3)], Pre: r.Bool(), Alias: r.Bool(), Ops: ops})
+				}
+			}
+		}
+	}
+	// F. a Write cut off at every log point, then the SAME set with identical contents from a new
+	//    Dir (the retry of a rotation), then a subset of it
+	for _, keys := range c18Menu {
+		for crash := 1; crash <= len(keys)+2; crash++ {
+			same := func(int) int { return 0 }
+			ops := []c18Op{
+				{Files: mkStable(keys, same), Crash: crash},
+				{Files: mkStable(keys, same), Fresh: true},
+				{Files: mkStable(keys[:len(keys)/2], same), Fresh: r.Bool()},
+			}
+			run(c18Input{Base: bases[r.Intn(3)], Pre: r.Bool(), Alias: r.Bool(), Ops: ops})
+		}
+	}
+	// C. random histories: 1..4 (sometimes up to 7) calls, random sets incl. unusable names;
+	//    half of them with stable contents (byte-identical or same-size-different files across
+	//    calls), a quarter with the caller's map updated in place
 	nrand := 500
 	if ctx.Thorough {
 		nrand = 30000
@@ -649,6 +814,7 @@ func c18Gen(ctx *core.Ctx) {
 			n = r.Range(5, 7)
 		}
 		var ops []c18Op
+		stable := r.Bool()
 		for i := 0; i < n; i++ {
 			var keys [][]int
 			for c := 0; c < 4; c++ {
@@ -670,9 +836,13 @@ func c18Gen(ctx *core.Ctx) {
 			if r.Chance(2, 5) {
 				crash = r.Range(1, len(keys)+2)
 			}
-			ops = append(ops, c18Op{Files: mkFiles(keys, i, r), Crash: crash, Fresh: r.Chance(1, 5)})
+			fl := mkFiles(keys, i, r)
+			if stable {
+				fl = mkStable(keys, func(int) int { return r.Intn(2) })
+			}
+			ops = append(ops, c18Op{Files: fl, Crash: crash, Fresh: r.Chance(1, 5)})
 		}
-		run(c18Input{Base: bases[r.Intn(3)], Pre: r.Bool(), Ops: ops})
+		run(c18Input{Base: bases[r.Intn(3)], Pre: r.Bool(), Alias: r.Chance(1, 4), Ops: ops})
 	}
 	// D. long runs of one Dir with occasional crashes: garbage collection over many versions,
 	//    many reader samples
